@@ -132,7 +132,7 @@ def cases(draw):
 
 
 def stage_hyp(ctx):
-    hyp_drive(ctx, cases(), judge, 700 if ctx.tier == "quick" else 8000)
+    hyp_drive(ctx, cases(), judge, 700 if ctx.tier == "quick" else 5000)
 
 
 def decode_case(fdp):
